@@ -23,7 +23,7 @@ def run(chk):
     chk.rule = ("seeded inputs of 8 kinds (grammar full/UTF-8, SGR-rich, random bytes, arbitrary Unicode, boundary-rich CSI/OSC, 30-40 huge parameters) "
                 "x 12 entry points + 2 document converters; distinct = distinct input byte strings (all contain escapes, controls or non-ASCII)")
     chk.assumptions = ["harness built with debug-assertions and overflow-checks on (release profile of /verif/harness/Cargo.toml)",
-                       "out-of-bounds reads that do not crash are invisible to a trace; Miri/ASan are not part of this check (see DESIGN section 6)"]
+                       "out-of-bounds reads that do not crash an ordinary build are looked for by running the same exploration in an AddressSanitizer build (nightly); Miri is not used (200 inputs take > 25 min)"]
     # S: soundness invariants on the specification
     wd = vlib.workdir("c04")
     cfg = mk_cfg("spec/mc/MC_VtLimits.cfg", os.path.join(wd, "lim.cfg"), {"Depth": 6 if quick else 8, "FullBytes": False})
@@ -69,6 +69,7 @@ def run(chk):
 
     def val(p):
         return p, vlib.tlc_trace(p, "Trace_Total", "c04-" + os.path.basename(p), timeout=6000)
+    jobs2 = []
     for p, (ok, rej, res) in vlib.parallel(val, jobs, jobs=8):
         chk.add_tlc(res)
         if not ok:
@@ -76,7 +77,38 @@ def run(chk):
             badapis = [a for a in e["apis"] if a[1] != "ok" or not a[2]]
             chk.violation("entry point(s) %s failed on an input of %d bytes starting %r (bookkeeping %s)" % (badapis, e["n"], bytes(e["in"]), e["dbg"]),
                           {"kind": "total-event", "event": e, "file": p})
-    chk.evaluations += tot["calls"]
+    # the same exploration under AddressSanitizer (out-of-bounds reads in the unsafe blocks do not crash an ordinary build)
+    asan = {"inputs": 0, "calls": 0}
+    for pkg, args_of in (("vh", lambda s_: ["total-run", chk.seed * 1000 + 500 + s_, 400 if quick else 6000, 200 if s_ % 2 else 700]),
+                         ("vh-doc", lambda s_: ["total-run", chk.seed * 1000 + 500 + s_, 150 if quick else 2000, 300])):
+        ab = vlib.build_harness_asan(pkg, bin_name=pkg)
+        if ab is None:
+            chk.notes.append("no nightly toolchain with the AddressSanitizer runtime: %s not run under ASan" % pkg)
+            continue
+        for s_ in range(2 if quick else 8):
+            p = os.path.join(wd, "asan-%s-%d.ndjson" % (pkg, s_))
+            a = [str(x) for x in args_of(s_)] + [p]
+            env = dict(os.environ); env["ASAN_OPTIONS"] = "detect_leaks=0:abort_on_error=0:halt_on_error=1"
+            rr = subprocess.run([ab] + a, stdout=subprocess.PIPE, stderr=subprocess.PIPE, text=True, timeout=7200, env=env)
+            if "AddressSanitizer" in rr.stderr:
+                chk.violation("memory error reported by AddressSanitizer in `%s %s`: %s" % (pkg, " ".join(a[:4]), rr.stderr[rr.stderr.index("AddressSanitizer"):][:600].replace("\n", " | ")),
+                              {"kind": "asan", "pkg": pkg, "args": a[:4], "report": rr.stderr[-4000:]})
+                continue
+            if rr.returncode != 0:
+                raise vlib.ToolError("%s under AddressSanitizer failed: %s" % (pkg, rr.stderr[-800:]))
+            summ = json.loads(rr.stdout.strip().split("\n")[-1])["summary"]
+            asan["inputs"] += summ["inputs"]; asan["calls"] += summ["calls"]
+            jobs2.append(p)
+    for p, (ok, rej, res) in vlib.parallel(val, jobs2, jobs=8):
+        chk.add_tlc(res)
+        if not ok:
+            e = rej["event"]
+            badapis = [a for a in e["apis"] if a[1] != "ok" or not a[2]]
+            chk.violation("(ASan build) entry point(s) %s failed on an input of %d bytes starting %r" % (badapis, e["n"], bytes(e["in"])),
+                          {"kind": "total-event", "event": e, "file": p})
+    if asan["inputs"]:
+        chk.part("exploration_under_address_sanitizer", inputs=asan["inputs"], calls=asan["calls"])
+    chk.evaluations += tot["calls"] + asan["calls"]
     chk.nontrivial_count += tot["distinct"]
     chk.traces += tot["inputs"]
     chk.part("exploration", inputs=tot["inputs"], calls=tot["calls"], distinct_inputs=tot["distinct"])
@@ -96,6 +128,10 @@ def run(chk):
 
 
 def replay(obj):
+    if obj.get("kind") == "asan":
+        print(obj["report"])
+        print("re-run: the ASan build of %s with arguments %s <out>" % (obj["pkg"], obj["args"]))
+        return 1
     print(json.dumps(obj["event"])[:2000])
     print("re-run the check with the same VERIF_SEED to regenerate the full input (events keep the first 64 bytes)")
     return 1
